@@ -50,7 +50,13 @@ def make_case(rng):
         n_terms = rng.choice([7, 8, 9])      # room for groups of 6-7 alternatives behind one prefix
     terms = rng.sample(cfg.terminals, min(len(cfg.terminals), n_terms))
     r = rng.random()
-    if r < 0.4:
+    if r < 0.06 and len(terms) >= 3:
+        prods = gram.gen_prefix_divergence_grammar(rng, terms)
+        kind = "prefix-divergence"
+    elif r < 0.09:
+        prods = gram.gen_nullable_led_grammar(rng, terms)
+        kind = "nullable-led"
+    elif r < 0.4:
         if rng.random() < 0.4:
             prods = gram.gen_prefix_group_grammar(rng, terms)
             kind = "prefix-groups"
